@@ -71,7 +71,7 @@ def c13(ctx, t0):
         res.append(ctx.run_child('pam-encoder', [hx, 'c13pam'], T(ctx, 300, 1200)))
     floors = {'roundtrips': (counters(res, 'roundtrips'), 400), 'over_limit_encodes': (counters(res, 'over_limit_encodes'), 100),
               'fragmented_decodes': (counters(res, 'fragmented_decodes'), 2000), 'valid_requests': (counters(res, 'valid_requests'), 20),
-              'corpus_files': (counters(res, 'corpus_files'), 5), 'encoder_comparisons': (counters(res, 'encoder_comparisons'), 50)}
+              'corpus_files': (counters(res, 'corpus_files'), 5), 'retained_encodings_compared': (counters(res, 'retained_encodings_compared'), 1000), 'encoder_comparisons': (counters(res, 'encoder_comparisons'), 50)}
     return finish(ctx, 'exploration', res, COMMON_ASSUME + ['reference codec go/ref/wire.go is the oracle', 'zero-length reads are limited to 3 consecutive (bufio.Scanner gives up after 100, which is stdlib behaviour)'], floors, t0)
 
 
@@ -168,14 +168,19 @@ def c10(ctx, t0):
     res = []
     if want(ctx, 'progress'):
         res.append(ovl_stage(ctx, 'progress', 'TestVerifC10', T(ctx, 900, 5400)))
+    if want(ctx, 'hostile-clients'):
+        res.append(ovl_stage(ctx, 'hostile-clients', 'TestVerifC10Hostile', T(ctx, 600, 1200)))
     if want(ctx, 'fd-exhaustion'):
         ctx.build_agent()
         res.append(ctx.run_child('fd-exhaustion', [ctx.build_hx(), 'c10fd'], T(ctx, 600, 1800)))
     floors = {'requests_completed': (counters(res, 'requests_completed'), 5000),
               'upgrades_enqueued:local': (counters(res, 'upgrades_enqueued:local'), 50),
               'local_enqueue_at_full_queue': (counters(res, 'local_enqueue_at_full_queue'), 1),
-              'rounds_with_full_descriptor_table': (counters(res, 'rounds_with_full_descriptor_table'), 2)}
+              'rounds_with_full_descriptor_table': (counters(res, 'rounds_with_full_descriptor_table'), 2),
+              'requests_during_login_stream': (counters(res, 'requests_during_login_stream'), 40), 'stream_logins_answered': (counters(res, 'stream_logins_answered'), 200),
+              'stalled_connections': (counters(res, 'stalled_connections'), 300), 'stalled_clients_answered_after_completing': (counters(res, 'stalled_clients_answered_after_completing'), 200)}
     return finish(ctx, 'exploration', res, COMMON_ASSUME + [
+        'starvation is decided on logical events: a request still unanswered after 1500 logins issued after it were answered',
         'liveness is restated as bounded progress: every issued request returns before the drain phase ends and one probe per request channel returns afterwards',
         'a violation is a proved block (dispatcher goroutine blocked at the same place in two dumps), never a timeout; the watchdog firing is inconclusive',
         'the Go scheduler and select choice are steered by load and delay failpoints, not controlled'], floors, t0)
@@ -254,7 +259,11 @@ def c15(ctx, t0):
         ctx.build_agent()
         r = ctx.run_child('agent-readonly', [ctx.build_hx(), 'c15agent'], T(ctx, 600, 1200))
         res.append(sc_checks.c15_agent_postprocess(ctx, r, os.path.join(ctx.work, 'w-agent-readonly')))
-    floors = {'faults_injected': (counters(res, 'faults_injected'), 100), 'readonly_or_failing_calls': (counters(res, 'readonly_or_failing_calls'), 10),
+    if want(ctx, 'command-line'):
+        ctx.build_agent()
+        res.append(ctx.run_child('command-line', [ctx.build_hx(), 'c15cli'], T(ctx, 300, 600)))
+    floors = {'cli_commands': (counters(res, 'cli_commands'), 40), 'cli_commands_on_missing_basedir': (counters(res, 'cli_commands_on_missing_basedir'), 12),
+              'faults_injected': (counters(res, 'faults_injected'), 100), 'readonly_or_failing_calls': (counters(res, 'readonly_or_failing_calls'), 17),
               'requests_total': (counters(res, 'requests_total'), 80), 'agent_syscalls_inspected': (counters(res, 'agent_syscalls_inspected'), 1000),
               'pairs_with_one_failure': (counters(res, 'pairs_with_one_failure'), 10)}
     return finish(ctx, 'fault_enumeration', res, COMMON_ASSUME + [
@@ -310,7 +319,7 @@ def c19(ctx, t0):
     if want(ctx, 'hooks'):
         res.append(ovl_stage(ctx, 'hooks', 'TestVerifC19', T(ctx, 900, 5400)))
     floors = {'timing_runs': (counters(res, 'timing_runs'), 30), 'rounds_observed': (counters(res, 'rounds_observed'), 40), 'eligibility_files_checked': (counters(res, 'eligibility_files_checked'), 40),
-              'wiring_steps': (counters(res, 'wiring_steps'), 20), 'requests_completed_while_hook_hangs': (counters(res, 'requests_completed_while_hook_hangs'), 100),
+              'wiring_steps': (counters(res, 'wiring_steps'), 20), 'wiring_upgrades_observed': (counters(res, 'wiring_upgrades_observed'), 3), 'requests_completed_while_hook_hangs': (counters(res, 'requests_completed_while_hook_hangs'), 100),
               'distinct_event_sequences': (counters(res, 'distinct_event_sequences'), 6)}
     if ctx.tier == 'thorough':
         floors['boundary_order:second-notify-before-timer'] = (counters(res, 'boundary_order:second-notify-before-timer'), 1)
